@@ -946,7 +946,7 @@ func (p *vfC10nProxy) pumpDown(sy *vfC10nSync, fault vfC10nFault, up, down net.C
 				n = fault.ChunkMax
 			}
 			cut := false
-			if budget >= 0 && int64(n) >= budget {
+			if budget >= 0 && int64(n) > budget { // strictly more: a chunk that ends exactly at the cut position is delivered whole, the cut falls before the next byte
 				n = int(budget)
 				cut = true
 			}
